@@ -41,6 +41,12 @@ ASSUMPTIONS = [
     "limit in truncate/truncatewords, uniq/sort on 1/true/1.0 mixtures, negative start beyond "
     "the sequence in slice, float modulo with negative operands, numeric strings other than "
     "-?d+ and -?d+.d+) are kept out of the generated domain",
+    "numeric strings: the documentation says 'string representations of an integer or float' "
+    "without listing spellings; the spellings accepted by the working tree when the check was "
+    "calibrated (sign + or -, surrounding ASCII white space, leading zeros, digit-group "
+    "underscores, any magnitude; floats also .5, 5. and exponent forms) are required to behave "
+    "exactly like the number they denote (unit numstr); non-ASCII digits and exotic white space "
+    "are not generated",
     "a TypeError raised by a filter on the registry path is treated like the LiquidTypeError "
     "the renderer's dispatch turns it into",
     "float results are accepted within 2**-50 relative error of the exact decimal result",
@@ -56,7 +62,7 @@ QUOTA = 500
 
 def _plan(tier: str) -> list[tuple[str, int, int]]:
     """(unit, cases per shard, sub-shards)"""
-    heavy = {"select": 2, "sort": 2, "arith2": 2}
+    heavy = {"select": 2, "sort": 2, "arith2": 2, "numstr": 2}
     out = []
     for name in sorted(UNITS):
         if tier == "quick":
@@ -87,6 +93,7 @@ def floors(tier: str) -> dict[str, int]:
         "registry_applications": 50_000 * k,
         "template_vs_registry": 50_000 * k,
         "lambda_form_comparisons": 5_000 * k,
+        "string_vs_number_comparisons": 20_000 * k,
     }
 
 
